@@ -184,7 +184,15 @@ def render_by_build_cli(d, art, template, data, scn, vkeys) -> str:
     dummy = d / "image.config"
     dummy.write_text("CONFIG_VERIF=y\n")
     sysb = d / "sysbuild.config"
-    sysb.write_text("".join(f'{k_}="{v_}"\n' for k_, v_ in data["sysbuild"]["config"].items()) or "CONFIG_NONE=y\n")
+    # live assignments, each followed by a commented-out old value of the same symbol; symbols that are not configured at all are
+    # mentioned in comments only
+    live = data["sysbuild"]["config"]
+    text = "".join(f'{k_}="{v_}"\n# {k_}="commented out"\n' for k_, v_ in live.items()) or "CONFIG_NONE=y\n"
+    for role in ("ROOT", "APP_LOCAL_1", "RAD_LOCAL_1"):
+        for what in ("VENDOR_NAME", "CLASS_NAME"):
+            if f"SB_CONFIG_SUIT_MPI_{role}_{what}" not in live:
+                text += f'# SB_CONFIG_SUIT_MPI_{role}_{what}="only in a comment"\n'
+    sysb.write_text(text)
     a = [core.PY, str(core.REPO / "ncs" / "build.py"), "template", "--core", f"sysbuild,,,{sysb}"]
     for img in ("radio", "application", "top", "secdom", "sysctrl"):
         if img in data:
@@ -217,6 +225,7 @@ def run(ctx: core.Check):
         s["present"] = [x for x in ("radio", "application", "top", "secdom", "sysctrl") if x in s["present"]]
     build = build_mod()
     tr = toolrun.Trace()
+    ctx.rng.shuffle(scns)   # TLC's enumeration order is periodic: the modulo selectors below (entry point, shared folder) must not alias with it
     reps = 1 if ctx.quick else 12
     k = 0
     shared = ctx.tmp("c19shared")
